@@ -41,6 +41,17 @@ def boundary_configs(strength):
          ("SNC", 0, {"segments": [0], "include_boundary_dofs": True}), ["efield", "mfield"]),
         ("octa/RWGseg1", "octa", ("RWG", 0, {"segments": [1], "include_boundary_dofs": True}), None,
          ("SNC", 0, {"segments": [1], "include_boundary_dofs": True}), ["efield", "mfield"]),
+        # one grid, different test and trial spaces
+        ("octa/P1seg0<-P1seg1", "octa", ("P", 1, {"segments": [1], "include_boundary_dofs": True}), None,
+         ("P", 1, {"segments": [0], "include_boundary_dofs": True}), ["sl", "hyp"]),
+        ("octa/P1swapped<-P1", "octa", ("P", 1, {}), None, ("P", 1, {"swapped_normals": [1]}), ["dl", "adl", "hyp"]),
+        ("screen22/P1<-P1b", "screen22", ("P", 1, {"include_boundary_dofs": True}), None, ("P", 1, {}),
+         ["sl", "hyp"]),
+        ("octa/DP1<-P1", "octa", ("P", 1, {}), None, ("DP", 1, {}), ["hyp"]),
+        ("octa/SNCseg0<-RWGseg1", "octa", ("RWG", 0, {"segments": [1], "include_boundary_dofs": True}), None,
+         ("SNC", 0, {"segments": [0], "include_boundary_dofs": True}), ["efield", "mfield"]),
+        ("screen22/SNC<-RWGb", "screen22", ("RWG", 0, {"include_boundary_dofs": True}), None, ("SNC", 0, {}),
+         ["efield", "mfield"]),
         ("tet->strip3/P1", "tet", ("P", 1, {}), "strip3", ("DP", 0, {}), ["sl", "dl"]),
         ("fan4->tet/RWG", "fan4", ("RWG", 0, {}), "tet", ("SNC", 0, {}), ["efield", "mfield"]),
         ("tet/P1-bary", "tet", ("P-bary", 1, {}), None, ("P-bary", 1, {}), ["sl"]),
